@@ -306,6 +306,8 @@ func checkC14(c *Ctx) {
 	c14ResultPresence(c)
 	c03QueueAnswered(c) // a transport that queues its answers must not be able to skip one: the others answer every request
 	c02ErrorEnvelope(c) // every client transport hands the client the whole error envelope
+	c03EncodeFailureAnswered(c) // an unencodable result is answered with -32603 by every way of answering
+	scannersBounded(c, c.P.LibFns, "R-scanner-bounded") // a transport reading with a default Scanner stops at a request the others answer
 	if x := newC04ctx(c); x != nil {
 		x.issuePoint() // what counts as the session-opening initialize is decided like everywhere else: by id and method
 	}
